@@ -253,3 +253,20 @@ def expr_condition(fnode, node, expand=True):
     if base is None:
         base = ('const', True)
     return And(base, *conds)
+
+
+def branches(ifnode, when, fnode=None):
+    """(statements run when ``when`` holds, statements run when it does not) for an ``if`` whose test is ``when`` or its
+    negation, however it is written (`if c: A else: B`, `if not c: B else: A`, `x != 'a'` for `x == 'a'`, through a local
+    name); None when the test is something else.  ``when`` is a formula or source text."""
+    if isinstance(when, str):
+        when = formula(ast.parse(when, mode='eval').body)
+    t = formula(ifnode.test, fnode)
+    try:
+        if equivalent(t, when):
+            return ifnode.body, ifnode.orelse
+        if equivalent(t, Not(when)):
+            return ifnode.orelse, ifnode.body
+    except ValueError:
+        return None
+    return None
